@@ -18,11 +18,11 @@ theorem simplePath_canon (m : Mol) (hwf : m.WF = true) (p : Path) (h : SimplePat
 theorem fragments_eq (H : TupleHash) (m : Mol) (hwf : m.WF = true) (lo hi : Int) (h1 : 1 ≤ lo) (h2 : lo ≤ hi) :
     ∃ cs, chains m lo hi = .ok cs ∧
       fragments H m lo hi = .ok (groupFold (fragKey H m) (fragDir H m) [] cs) := by
-  obtain ⟨cs, hcs⟩ := chains_ok m lo hi
+  obtain ⟨cs, hcs⟩ := chains_ok m hwf lo hi
   refine ⟨cs, hcs, ?_⟩
   have hsimple : ∀ c ∈ cs, SimplePath m c := by
     intro c hc
-    obtain ⟨p, hp, _, _, rfl⟩ := (chains_exact_aux m (closed_of_wf m hwf) lo hi h1 h2 cs hcs c).mp hc
+    obtain ⟨p, hp, _, _, rfl⟩ := (chains_exact_aux m hwf lo hi h1 h2 cs hcs c).mp hc
     exact simplePath_canon m hwf p hp
   unfold fragments
   simp only [hcs, bind, Except.bind]
@@ -38,8 +38,8 @@ theorem fragments_struct (H : TupleHash) (m : Mol) (hwf : m.WF = true) (lo hi : 
         ∃ p, SimplePath m p ∧ lo ≤ (p.length : Int) ∧ (p.length : Int) ≤ hi ∧ fragKey H m p = K ∧ x = canon p := by
   obtain ⟨cs, hcs, hd⟩ := fragments_eq H m hwf lo hi h1 h2
   rw [hd] at h; cases h
-  have hex := chains_exact_aux m (closed_of_wf m hwf) lo hi h1 h2 cs hcs
-  have hnd := chains_nodup_aux m (wf_parts m hwf).1 lo hi cs hcs
+  have hex := chains_exact_aux m hwf lo hi h1 h2 cs hcs
+  have hnd := chains_nodup_aux m hwf lo hi cs hcs
   have hkeys := keys_nodup_groupFold (fragKey H m) (fragDir H m) cs [] (by simp)
   refine ⟨hkeys, ?_, ?_⟩
   · intro p hp hl1 hl2
